@@ -42,7 +42,7 @@ HelperZ == TypeDef("Z", "pub", <<>>)
 HelperS == [TypeDef("S", "pub", <<Field("a", "pub", <<>>, TNm("u64"), None, FALSE),
                                    Field("b", "pub", <<>>, TNm("u32"), None, FALSE)>>)
               EXCEPT !.size = 12, !.align = 8]
-HelperE == EnumDef("E", "pub", TNm("u16"), <<Variant("A", None, FALSE), Variant("B", None, FALSE)>>)
+HelperE == EnumDef("E", "pub", TNm("u16"), <<Variant("A", NumNone, FALSE), Variant("B", NumNone, FALSE)>>)
 HelperX == ExtType("X", 8, 4)
 
 PaletteTypes ==
